@@ -34,6 +34,30 @@ func mkFree(proto string, limit, pre, n int) string {
 	return fmt.Sprintf("free p %s lim %d pre %d n %d", proto, limit, pre, n)
 }
 
+func mkFreeIt(proto string, limit, pre, n, iters int) string {
+	return fmt.Sprintf("free p %s lim %d pre %d n %d it %d", proto, limit, pre, n, iters)
+}
+
+// C': stress — the same boundary race repeated on fresh state (windows no gate can reach:
+// Load..CompareAndSwap of the mapping handler, the lock hand-over of the registries).
+func genStress(tier string, emit func(string)) {
+	iters := 3000
+	if tier == "thorough" {
+		iters = 30000
+	}
+	for _, proto := range []string{"map", "mapu", "tun", "conn"} {
+		for _, limit := range []int{1, 3} {
+			it := iters
+			if proto == "tun" || proto == "conn" {
+				it = iters / 3
+			}
+			emit(mkFreeIt(proto, limit, limit-1, 8, it))
+		}
+	}
+	emit(mkFreeIt("code", 2, 1, 6, iters/20))
+	emit(mkFreeIt("mapq", 2, 1, 6, iters/20))
+}
+
 // steps one admission takes when nothing interferes (upper bound used to size schedules)
 func admitSteps(proto string, occ int) int {
 	switch proto {
@@ -308,6 +332,7 @@ func generate(r *common.Rand, tier string, emit func(string)) {
 	emit("caps")
 	genExhaustive(tier, emit)
 	genMultiNode(emit)
+	genStress(tier, emit)
 	if tier == "thorough" {
 		genRandomInterleavings(r, 3000, emit)
 		genRandom(r, 20000, emit)
